@@ -17,7 +17,7 @@ Theorem C02_response_invariants : forall fuel s d vars root j es cs,
   exists cv tn,
     coerce_variable_values s (d_vars d) vars = Some cv /\ root_type s (d_kind d) = Some tn /\
     (j = JNull \/ exists kvs, j = JObj kvs /\ shaped_obj s (d_frags d) cv tn (d_sels d) kvs) /\
-    Forall (fun e => hits_null e j = true) es /\
+    Forall (fun e : err => hits_null (fst e) j = true) es /\
     (j = JNull -> es <> []) /\
     Forall (call_ok s cv) cs.
 Proof. exact response_invariants. Qed.
@@ -51,6 +51,28 @@ Theorem C02_data_null_iff_propagated : forall fuel s d vars root j es cs,
 Proof. exact null_iff_propagated. Qed.
 Print Assumptions C02_data_null_iff_propagated.
 
+(* "a null exactly where the specification nulls": value completion yields null only for a null
+   value; a null field is either a null value with nothing wrong below, or has an error recorded at
+   or below it (field errors, non-null propagation to this nearest nullable ancestor) *)
+Theorem C02_null_accounted : forall s frags cv fuel rt obj f1 fs es cs,
+  exec_field s frags cv fuel rt obj (f1 :: fs) = Some (FRes (CVal JNull, es, cs)) ->
+  (match lookup (fs_name f1) obj with Some d => d | None => DNull end = DNull /\ es = []) \/ es <> [].
+Proof. exact field_null_accounted. Qed.
+Print Assumptions C02_null_accounted.
+
+Theorem C02_completion_null_is_data_null : forall s frags cv fuel t sels d es cs,
+  complete s frags cv fuel t sels d = Some (CVal JNull, es, cs) -> d = DNull /\ es = [].
+Proof. exact complete_null. Qed.
+Print Assumptions C02_completion_null_is_data_null.
+
+(* fuel is only fuel: two runs that are not out of fuel give the same response, so `execute`
+   (= execute_fuel at default_fuel) is THE response whenever it is not OutOfFuelR *)
+Theorem C02_fuel_independent : forall f1 f2 s d vars root,
+  execute_fuel f1 s d vars root <> OutOfFuelR -> execute_fuel f2 s d vars root <> OutOfFuelR ->
+  execute_fuel f1 s d vars root = execute_fuel f2 s d vars root.
+Proof. exact execute_fuel_independent. Qed.
+Print Assumptions C02_fuel_independent.
+
 (* Determinism and history independence.  The specification's algorithm is a function of
    (schema, document, variables, data): there is no state a previous request could leave behind.
    Stated for the record; what it rules out in /repo (memoised defaults, cached sub-selections
@@ -72,5 +94,5 @@ Example C02_example :
   let d := mkDoc OpQuery [] [SField None a [] [] [SField None x [] [] []; SField None y [] [] []]] [] in
   let root := DObj [] [(a, DObj [] [(y, DLeaf (LStr [104]))])] in
   execute s d [] root
-  = Resp (JObj [(a, JNull)]) [[PKey a; PKey x]] [([PKey a], a, []); ([PKey a; PKey x], x, [])].
+  = Resp (JObj [(a, JNull)]) [([PKey a; PKey x], CauseNull)] [([PKey a], a, []); ([PKey a; PKey x], x, [])].
 Proof. vm_compute. reflexivity. Qed.
